@@ -115,9 +115,52 @@ struct GenCfg {
 };
 static GenCfg GEN[sch::MAXT];
 
+// L4: the generators are constructed, configured and initialised by the parent thread before the workers start; the workers
+// only shoot (a job that configures everything up front and hands the generators to its worker threads)
+static bool PREINIT = false;
+static bxdecay0::decay0_generator * PRE[sch::MAXT];
+static Rnd * PRE_R[sch::MAXT];
+
+static void configure_gen(bxdecay0::decay0_generator & g, int tid)
+{
+  using bxdecay0::decay0_generator;
+  g.set_decay_category(GEN[tid].dbd ? decay0_generator::DECAY_CATEGORY_DBD : decay0_generator::DECAY_CATEGORY_BACKGROUND);
+  g.set_decay_isotope(GEN[tid].name);
+  if (GEN[tid].dbd) {
+    g.set_decay_dbd_level(GEN[tid].level);
+    g.set_decay_dbd_mode((bxdecay0::dbd_mode_type)GEN[tid].mode);
+  }
+}
+
+static void pre_init(int tid)
+{
+  PRE[tid] = new bxdecay0::decay0_generator;
+  PRE_R[tid] = new Rnd;
+  PRE_R[tid]->phase = 100 + tid;
+  configure_gen(*PRE[tid], tid);
+  bool dp = DRAW_POINTS;
+  DRAW_POINTS = false; // (the scheduler is not running yet)
+  PRE[tid]->initialize(*PRE_R[tid]);
+  DRAW_POINTS = dp;
+}
+
 static void gen_events(int tid, double * out)
 {
   using bxdecay0::decay0_generator;
+  if (PREINIT) {
+    decay0_generator & g = *PRE[tid];
+    Rnd & r = *PRE_R[tid];
+    double acc = g.get_to_all_events();
+    for (int k = 0; k < 2; k++) {
+      bxdecay0::event ev;
+      g.shoot(r, ev);
+      for (auto & p : ev.get_particles()) acc = acc * 1.0000001 + p.get_px() + 2 * p.get_py() + 3 * p.get_pz() + 5 * p.get_time() + (int)p.get_code();
+      out[1 + k] = (double)ev.get_particles().size();
+    }
+    out[0] = acc;
+    out[3] = (double)r.i;
+    return;
+  }
   decay0_generator g;
   g.set_decay_category(GEN[tid].dbd ? decay0_generator::DECAY_CATEGORY_DBD : decay0_generator::DECAY_CATEGORY_BACKGROUND);
   g.set_decay_isotope(GEN[tid].name);
@@ -210,6 +253,8 @@ static Outcome run_one(const std::vector<int> & prefix)
     FILE * f = freopen("/dev/null", "w", stderr);
     (void)f;
     alarm(20);
+    if (PREINIT)
+      for (int t = 0; t < NT; t++) pre_init(t);
     g_initial_handler = current_handler();
     sch::run_schedule(NT, body, prefix, LOG, state_hash, 3500);
     LOG->user[0] = (current_handler() == g_initial_handler) ? 0 : 1;
@@ -324,6 +369,9 @@ int main(int argc, char ** argv)
   // two generators each carrying its own direction lock with another aperture, preemption at every deviate request
   else if (HARNESS == "l3f") { NT = 2; DRAW_POINTS = true; GEN[0] = {false, "Co60", 0, 0, 5.0}; GEN[1] = {false, "Co60", 0, 0, 60.0}; }
   else if (HARNESS == "l3g") { NT = 2; DRAW_POINTS = true; GEN[0] = {true, "Mo100", 0, 1, 20.0}; GEN[1] = {false, "Cs137+Ba137m", 0, 0, 90.0}; }
+  else if (HARNESS == "l4a") { NT = 2; PREINIT = true; GEN[0] = {true, "Zr96", 0, 20}; GEN[1] = {true, "Nd150", 0, 20}; NEED_OK = true; }
+  else if (HARNESS == "l4b") { NT = 2; PREINIT = true; DRAW_POINTS = true; GEN[0] = {true, "Mo100", 0, 4}; GEN[1] = {false, "Co60", 0, 0}; NEED_OK = true; }
+  else if (HARNESS == "l4c") { NT = 3; PREINIT = true; GEN[0] = {true, "Xe136", 0, 20}; GEN[1] = {true, "Cd106", 0, 10}; GEN[2] = {true, "Se82", 0, 5}; NEED_OK = true; }
   else if (HARNESS == "l2d") { NT = 3; GEN[0] = {true, "Cd106", 0, 10}; GEN[1] = {true, "Ru96", 0, 10}; GEN[2] = {false, "Bi207+Pb207m", 0, 0}; }
   else return 2;
   LOG = sch::shared_log();
@@ -335,6 +383,7 @@ int main(int argc, char ** argv)
       FILE * f = freopen("/dev/null", "w", stderr);
       (void)f;
       sch::S.log = LOG;
+      if (PREINIT) pre_init(t);
       body(t);
       _exit(0);
     }
